@@ -467,18 +467,36 @@ class Machine:
             acq.succ = body_e
             return acq.idx
         if isinstance(st, ast.Try):
-            if st.finalbody or st.orelse:
-                raise TranslationError("try/finally or try/else")
+            after = nxt
+            j_in = jumps
+            outer = list(handlers)
+            if st.finalbody:
+                # the finally block is copied once per way of leaving the try statement (like the lock release of `with`):
+                # normal completion, an exception on its way out (re-raised afterwards), return, break, continue
+                after = self.build_block(thread, st.finalbody, frame, nxt, jumps, handlers, locks, func)
+                rr = ast.Raise(exc=None, cause=None, lineno=-1, col_offset=0)     # synthetic: no source line of its own
+                reraise = self.add_node(thread, "raise", rr, frame, func)
+                reraise.exc = list(handlers)
+                f_exc = self.build_block(thread, st.finalbody, frame, reraise.idx, jumps, handlers, locks, func)
+                outer = list(handlers) + [(None, f_exc)]
+                j_in = dict(jumps)
+                for key in ("return", "break", "continue"):
+                    if jumps.get(key) is not None:
+                        j_in[key] = self.build_block(thread, st.finalbody, frame, jumps[key], jumps, handlers, locks, func)
+            body_next = after
+            if st.orelse:
+                # exceptions of the else block are not caught by this statement's handlers
+                body_next = self.build_block(thread, st.orelse, frame, after, j_in, outer, locks, func)
             hs = []
             for h in st.handlers:
                 names = None
                 if h.type is not None:
                     names = set(exc_names(h.type))
-                hb = self.build_block(thread, h.body, frame, nxt, jumps, handlers, locks, func)
+                hb = self.build_block(thread, h.body, frame, after, j_in, outer, locks, func)
                 hs.append((names, hb))
             # innermost handlers are consulted first: append in reverse so that the first matching wins
-            inner = list(handlers) + list(reversed(hs))
-            return self.build_block(thread, st.body, frame, nxt, jumps, inner, locks, func)
+            inner = list(outer) + list(reversed(hs))
+            return self.build_block(thread, st.body, frame, body_next, j_in, inner, locks, func)
         if isinstance(st, (ast.Global, ast.Nonlocal, ast.Import, ast.ImportFrom)):
             return nxt
         if isinstance(st, ast.FunctionDef):
